@@ -148,12 +148,16 @@ def sibling(t, ids):
     return [t[0]] + [sibling(x, ids) if (isinstance(x, list) or x is None) else x for x in t[1:]]
 
 
-def with_variant(c, deco, same_def, nsib):
+def with_variant(c, deco, same_def, nsib, put_back=False, subclass=False, stray=False):
     """entry point (a LineProfiler called directly / the explicit `line_profiler.profile`, enabled), how the
     functions were defined (textually identical defs in different files / one def executed several times
     with different defaults), and how many objects of the same shape were decorated just before, inline,
     so that the decorated originals are temporaries."""
-    c = dict(c, deco=deco, same_def=same_def)
+    # put_back: the object is a member of an existing class, decorated via vars(cls)[name] and put back with
+    # setattr; subclass: wrapper objects are instances of SUBCLASSES of classmethod/staticmethod/partial/
+    # partialmethod/property/cached_property; stray: the plain functions carry attributes named func, __func__,
+    # fget, ... (the `wrapper.func = fn` idiom)
+    c = dict(c, deco=deco, same_def=same_def, put_back=put_back, subclass=subclass, stray=stray)
     ids = [max_id(c['term'])]
     c['before'] = [sibling(c['term'], ids) for _ in range(nsib)]
     return c
@@ -173,6 +177,20 @@ def variant_block():
                 ids = [0]
                 t = ['pr'] + [None if c is None else mk(c, 0, ids) for c in (g, st, None)]
                 out.append(with_variant(dict(term=t, tag='seq-prop'), deco, same_def, 3))
+    # every descriptor kind applied to a member of an existing class / subclass-typed / with stray attributes
+    n = 0
+    for d in (1, 2):
+        for ch in chains(d, ['fn', 'wr'] + UNARY):
+            for k in ((0, 1, 2, 3) if d == 1 else (n % 4,)):
+                for pb, sub, stray in ((True, False, False), (True, True, False), (False, True, True), (True, False, True)):
+                    n += 1
+                    out.append(with_variant(dict(term=mk(ch, k, [0]), tag='apply%d' % d), 'lp' if n % 3 else 'global',
+                                            False, 0, pb, sub, stray))
+    for g, st, dl in ((['fn'], ['fn'], ['fn']), (['pt', 'fn'], None, None), (['wr'], ['fn'], None)):
+        for pb, sub, stray in ((True, False, False), (True, True, False), (False, True, True)):
+            ids = [0]
+            t = ['pr'] + [None if c is None else mk(c, 0, ids) for c in (g, st, dl)]
+            out.append(with_variant(dict(term=t, tag='apply-prop'), 'lp', False, 0, pb, sub, stray))
     return out
 
 
@@ -182,7 +200,8 @@ def gen_cases(tier, rnd):
     else:
         ex, nr, md = 6, 40000, 10
     plain = exhaustive(ex) + [rand_case(rnd, md) for _ in range(nr)]
-    plain = [with_variant(c, rnd.choice(['lp', 'lp', 'global']), rnd.random() < 0.3, rnd.choice([0, 0, 0, 2])) for c in plain]
+    plain = [with_variant(c, rnd.choice(['lp', 'lp', 'global']), rnd.random() < 0.3, rnd.choice([0, 0, 0, 2]),
+                          rnd.random() < 0.3, rnd.random() < 0.3, rnd.random() < 0.3) for c in plain]
     cases = shared_cases() + variant_block() + plain
     return cases, dict(exhaustive_chain_depth=ex, random=nr, random_max_depth=md)
 
@@ -305,6 +324,8 @@ def run_cases(impl, cases, per=100):
 
     def one(ch):
         return core.run_impl(impl, DRIVER, dict(cases=[dict(term=c['term'], deco=c.get('deco', 'lp'), same_def=c.get('same_def', False),
+                                                           put_back=c.get('put_back', False), subclass=c.get('subclass', False),
+                                                           stray=c.get('stray', False),
                                                            before=c.get('before', [])) for c in ch]), timeout=900)['results']
     with ThreadPoolExecutor(max_workers=min(core.NCPU, max(1, len(chunks)))) as ex:
         res = list(ex.map(one, chunks))
@@ -414,6 +435,10 @@ def run(tier, seed):
                                         for m in ('exhaust', 'raise', 'close', 'throw', 'drop')}),
         decorated_through_line_profiler_profile=sum(1 for c in cases if c.get('deco') == 'global'),
         functions_from_one_def_with_different_defaults=sum(1 for c in cases if c.get('same_def')),
+        members_of_an_existing_class_decorated_and_put_back=sum(1 for c in cases if c.get('put_back')),
+        subclass_typed_wrapper_objects=sum(1 for c in cases if c.get('subclass')),
+        functions_carrying_stray_func_fget_attributes=sum(1 for c in cases if c.get('stray')),
+        calls_pass_keyword_arguments_named=['func', 'self', 'args', 'kwds', 'cmd', 'globals', 'locals', 'wrapper'],
         cases_with_objects_decorated_in_a_row=sum(1 for c in cases if c.get('before')),
         objects_decorated_in_a_row=sum(len(c.get('before', [])) for c in cases),
         uses_from_a_worker_thread_while_main_is_inside_a_profiled_section=sum(
